@@ -118,6 +118,29 @@ def unit_is_unlabeled_nan():
     return se_unit("labels.is_unlabeled.nan_sentinel", FL, "is_unlabeled", None, setup, post, lib_factory=lambda: label_lib(False))
 
 
-UNITS = {"is_labeled.1d": unit_is_labeled(1), "is_labeled.2d": unit_is_labeled(2),
+def unit_is_unlabeled_empty(ndim):
+    """empty inputs (the early return): an empty boolean mask of the SAME shape, (0,) or (0, k)"""
+    def setup(E, st):
+        k = z3.Int("k")
+        st.assume(k >= 1)
+        shape = (0,) if ndim == 1 else (0, k)
+        y = ArrData(shape, fresh_sel("y", "f", ndim), "f")
+        return {"args": [st.alloc(y), Opaque("missing_label")], "shape": shape}
+
+    def post(E, ctx, outs):
+        rets = returns(outs)
+        if not rets:
+            E.oblige("reaches.return", [], z3.BoolVal(False))
+        for o in rets:
+            r = arr_of(o.value, o.state)
+            ok = r is not None and r.kind == "b" and r.ndim == ndim
+            E.oblige("ensures.empty_boolean_mask_of_the_same_rank", o.state, z3.BoolVal(bool(ok)))
+            if ok:
+                E.oblige("ensures.same_shape", o.state, z3.And(*[to_int(a) == to_int(b) for a, b in zip(r.shape, ctx["shape"])]))
+    return se_unit(f"labels.is_unlabeled.empty_{ndim}d", FL, "is_unlabeled", None, setup, post, lib_factory=lambda: label_lib(False))
+
+
+UNITS = {"is_unlabeled.empty_1d": unit_is_unlabeled_empty(1), "is_unlabeled.empty_2d": unit_is_unlabeled_empty(2),
+         "is_labeled.1d": unit_is_labeled(1), "is_labeled.2d": unit_is_labeled(2),
          "unlabeled_indices.1d": unit_indices("unlabeled_indices"), "labeled_indices.1d": unit_indices("labeled_indices"),
          "is_unlabeled.nan": unit_is_unlabeled_nan()}
